@@ -155,7 +155,7 @@ def main(argv):
                 a = rng.randrange(4)
                 cases.append(({'op': 'access', 'a': a, 'tb': tb}, [509, a, tb], lambda v: twice(ds(v))))
             else:
-                sy, l = rng.random() < 0.5, [rng.choice(['string', 'dzn/pump.hh', 'IToaster.h', 'a/b.hh']) for _ in range(rng.choice([0, 1, 2, 3]))]
+                sy, l = rng.random() < 0.5, [rng.choice(['string', 'dzn/pump.hh', 'IToaster.h', 'a/b.hh', '../common/Types.hh', './x.hh', '.hidden.hh', '/abs/y.hh', '..hh', 'a b.hh', '']) for _ in range(rng.choice([0, 1, 2, 3]))]
                 cases.append(({'op': 'includes', 'sys': sy, 'l': l}, [510, sy, l], lambda v: twice(ds(v))))
     bad = run_cases(cases, rep, worker='cpp_worker', vm_sample=(40 if tier == 'quick' else 300), vm_name='c20')
     for i, r, mv in bad[:5]:
